@@ -29,6 +29,7 @@ CheckMeta(id, c) ==
 CheckCase(c) ==
   CASE c.ev = "gm" -> CheckGm(c.id, c.obs, c.args, c.glob, c.dict, c.res)
     [] c.ev = "meta" -> CheckMeta(c.id, c)
+    [] c.ev = "frame" -> Verdict(c.id, c.what, c.before = c.after)
     [] OTHER -> Verdict(c.id, "unknown-event", FALSE)
 
 Init == l = 1 /\ LoadCases
